@@ -3,7 +3,7 @@ import ast
 
 from ..cfg import cfg_of
 from ..exprs import unparse, walk_no_nested, root_attr, ekey, dotted
-from ..pathrules import rule_T1, rule_T7, _present_label
+from ..pathrules import rule_T1, rule_T1b, rule_T7, _present_label
 from ..agree import rule_A1, eval_pred
 
 LEVEL_TEXT = ('Static path and sibling-agreement rules over nautilus/prior.py: a rejected '
@@ -120,7 +120,8 @@ def rule_LINK(ctx):
                     for s, lab in t.succ:
                         if lab == absent:
                             ab |= cfg.reach(s, include_src=True)
-                    if nid not in ab and cfg.must_pass(lt.id, nid, {t.id}):
+                    if nid not in ab and all(s_ == t.id or cfg.must_pass(s_, nid, {t.id})
+                                             for s_ in true_succ):
                         ok_m = True
         ctx.ob(rid, 'Prior.add_parameter:link-target-declared', ok_m, f.where(ap),
                'a link is stored only if its target key is already declared' if ok_m else
@@ -135,7 +136,7 @@ def rule_LINK(ctx):
                              isinstance(s.targets[0], ast.Name) and s.targets[0].id == var]
                 if 'isinstance' in txt and 'str' in txt and rebinding and \
                         all('dists' in unparse(s.value) for s in rebinding) and \
-                        cfg.must_pass(lt.id, nid, {t.id}):
+                        all(s_ == t.id or cfg.must_pass(s_, nid, {t.id}) for s_ in true_succ):
                     # the loop condition inspects the entry the variable currently names
                     if unparse(rebinding[0].value) in txt:
                         ok_c = True
@@ -166,9 +167,36 @@ def rule_COMP(ctx):
            else 'unit_to_dictionary is not the plain composition of the two transforms')
 
 
+def rule_PURE(ctx):
+    rid = 'F1p'
+    ctx.rule(rid, 'the queries of a Prior (dimensionality and the three transforms) write no '
+             'attribute of the prior, except a cache that add_parameter re-initialises on every '
+             'successful path')
+    from ..resolve import resolver
+    from ..persist import attrs_assigned
+    prog = ctx.program
+    res = resolver(prog)
+    ap = prog.func('Prior.add_parameter')
+    acfg = cfg_of(ap)
+    inval = attrs_assigned(ap, ap.self_name)
+    for q in ('dimensionality', 'unit_to_physical', 'physical_to_dictionary',
+              'unit_to_dictionary'):
+        f = prog.func('Prior.' + q)
+        w = sorted({a for c, a, k in res.trans(f).writes if c == 'Prior'})
+        bad = [a for a in w if not (a in inval and acfg.must_pass(
+            acfg.entry.id, acfg.exit.id, inval[a]))]
+        ctx.ob(rid, 'Prior.%s:no-state-write' % q, not bad, f.where(),
+               'writes no prior state' if not w else (
+                   'writes only caches that add_parameter invalidates: %s' % w if not bad else
+                   'writes %s, which add_parameter does not reset: the answer can be stale after '
+                   'a later declaration' % bad))
+
+
 def run(ctx):
     rule_COMP(ctx)
+    rule_PURE(ctx)
     rule_T1(ctx, 'Prior.add_parameter', {'keys', 'dists'})
+    rule_T1b(ctx, 'Prior.add_parameter', {'keys', 'dists'})
     rule_T7(ctx, 'Prior.add_parameter', 'keys')
     rule_R1(ctx)
     rule_PAIR(ctx)
